@@ -15,6 +15,7 @@ import (
 	"encoding/json"
 	"fmt"
 	"os"
+	"regexp"
 	"sort"
 	"strings"
 	"time"
@@ -41,7 +42,23 @@ func caseOf(p *Prog) replayCase {
 
 // knownTags: feature tag -> signature of the known finding that covers it.
 // Features listed here stay out of the mix stream and are confirmed alone.
-var knownTags = map[string]string{}
+var knownTags = map[string]string{
+	// class-like declarations in the entry file are parsed into the registry, not the AST
+	"entry-class":            "diff:entry-class",
+	"entry-class-namespaced": "diff:entry-class-namespaced",
+	"entry-interface":        "diff:entry-interface",
+	// interface declarations are never translated (augmentProgramASTFromBase only walks AllClasses)
+	"cls-interface-abstract": "register:cls-interface-abstract",
+	"cls-interface-const":    "register:cls-interface-const",
+	// ClassStatement.StaticProperty (constants, static properties: parse-time values) is not emitted
+	"cls-const":       "diff:cls-const",
+	"cls-static-prop": "diff:cls-static-prop",
+	"cls-late-static": "diff:cls-late-static",
+	"cls-enum":        "diff:cls-enum",
+	// ClassStatement.Construct (inherited constructor resolved by the parser) is not emitted
+	"cls-inherit":            "diff:cls-inherit",
+	"cls-exception-subclass": "diff:cls-exception-subclass",
+}
 
 func sigFor(tag string) string {
 	if s, ok := knownTags[tag]; ok {
@@ -70,6 +87,13 @@ func (rn *runner) judge(progs []*Prog, br *BatchResult, shrinkPass bool) {
 		if rf, ok := br.Refused[p.Name]; ok {
 			c.Eval(key, false)
 			c.Hit("refused:" + rf.Stage)
+			if rf.Stage == "crash" {
+				if len(p.Tags) > 1 && !shrinkPass && len(p.Parts) > 0 {
+					rn.failing = append(rn.failing, p)
+				} else {
+					c.Violation("crash:"+strings.Join(uniqSorted(p.Tags), "+"), "the compile command panics instead of reporting a compile error for "+p.Name+" ["+strings.Join(p.Tags, ",")+"]: "+rf.Msg, caseOf(p))
+				}
+			}
 			// A refusal must be explicit (the command named the file and failed);
 			// a parse refusal must also be a parse error for the interpreter — checked by
 			// the parse-refusal stream below through the interpreted run of the batch.
@@ -84,10 +108,11 @@ func (rn *runner) judge(progs []*Prog, br *BatchResult, shrinkPass bool) {
 			if rn.explore != nil {
 				fmt.Fprintf(rn.explore, "UNBUILT %s %v: %s\n", p.Name, p.Tags, msg)
 			}
-			tag := "mixed"
-			if len(p.Tags) == 1 {
-				tag = p.Tags[0]
+			if len(p.Tags) > 1 && !shrinkPass && len(p.Parts) > 0 {
+				rn.failing = append(rn.failing, p)
+				continue
 			}
+			tag := strings.Join(uniqSorted(p.Tags), "+")
 			c.Violation("build:"+tag, "the Go code generated for "+p.Name+" ["+strings.Join(p.Tags, ",")+"] does not compile: "+msg, caseOf(p))
 			continue
 		}
@@ -117,6 +142,10 @@ func (rn *runner) judge(progs []*Prog, br *BatchResult, shrinkPass bool) {
 		if io.Exit == -1 || co.Exit == -1 {
 			// a timeout on either side is not comparable (load); note it
 			c.Hit("skipped:timeout")
+			c.Note("timeout: %s %v compiled-exit=%d interpreted-exit=%d", p.Name, p.Tags, co.Exit, io.Exit)
+			if rn.explore != nil {
+				fmt.Fprintf(rn.explore, "TIMEOUT %s %v\n%s\n", p.Name, p.Tags, p.Src)
+			}
 			continue
 		}
 		if co.Same(io) {
@@ -153,17 +182,99 @@ func uniqSorted(xs []string) []string {
 	return out
 }
 
-func (rn *runner) batch(progs []*Prog, shrinkPass bool) *BatchResult {
-	rn.batchNo++
-	br := RunBatch(rn.c, rn.batchNo, progs, rn.timeout)
-	rn.c.Note("batch %d: %d programs, %d refused, translate %.1fs, go build %.1fs, run %.1fs", rn.batchNo, len(progs), len(br.Refused), br.CompileS, br.BuildS, br.RunS)
-	if br.Err != "" {
-		var first any
-		if len(progs) > 0 {
-			first = caseOf(progs[0])
+var reLibInErr = regexp.MustCompile(`/src/lib/([A-Za-z0-9_]+)/`)
+
+// poisoned: library files are executed by Register() in every compiled run, so
+// one library whose translation is wrong can end every compiled program of the
+// build the same way. Detect that, blame the library's program, and redo the
+// batch without it so that the others are still judged individually.
+func poisoned(progs []*Prog, br *BatchResult) *Prog {
+	count := map[string]int{}
+	total := 0
+	for _, p := range progs {
+		co, ok := br.Compiled[p.Name]
+		if !ok {
+			continue
 		}
-		rn.c.Violation("batch:"+firstWords(br.Err, 6), "the batch could not be translated/built/run: "+br.Err, first)
-		return br
+		total++
+		if io := br.Interp[p.Name]; co.ErrKind != "" && !co.Same(io) {
+			count[co.ErrKind]++
+		}
+	}
+	for kind, k := range count {
+		if total < 4 || k*2 < total {
+			continue
+		}
+		// who owns the library named in the stack?
+		for _, p := range progs {
+			co := br.Compiled[p.Name]
+			if co.ErrKind != kind {
+				continue
+			}
+			for _, m := range reLibInErr.FindAllStringSubmatch(co.Raw, -1) {
+				for _, q := range progs {
+					for rel := range q.Libs {
+						if strings.HasPrefix(rel, m[1]+"/") {
+							return q
+						}
+					}
+				}
+			}
+			// named by the class in the message
+			for _, q := range progs {
+				for rel := range q.Libs {
+					if strings.Contains(kind, strings.SplitN(rel, "/", 2)[0]) {
+						return q
+					}
+				}
+			}
+		}
+	}
+	return nil
+}
+
+func (rn *runner) batch(progs []*Prog, shrinkPass bool) *BatchResult {
+	c := rn.c
+	var br *BatchResult
+	for attempt := 0; attempt < 8; attempt++ {
+		rn.batchNo++
+		br = RunBatch(c, rn.batchNo, progs, rn.timeout)
+		c.Note("batch %d: %d programs, %d refused, %d unbuilt, translate %.1fs, go build %.1fs, run %.1fs", rn.batchNo, len(progs), len(br.Refused), len(br.Unbuilt), br.CompileS, br.BuildS, br.RunS)
+		if br.Err != "" {
+			var first any
+			if len(progs) > 0 {
+				first = caseOf(progs[0])
+			}
+			c.Violation("batch:"+firstWords(br.Err, 6), "the batch could not be translated/built/run: "+br.Err, first)
+			return br
+		}
+		culprit := poisoned(progs, br)
+		if culprit == nil {
+			break
+		}
+		co := br.Compiled[culprit.Name]
+		tag := strings.Join(uniqSorted(culprit.Tags), "+")
+		if len(culprit.Tags) == 1 {
+			tag = culprit.Tags[0]
+		}
+		sig := "register:" + tag
+		if len(culprit.Tags) == 1 {
+			if s, ok := knownTags[culprit.Tags[0]]; ok {
+				sig = s
+			}
+		}
+		if rn.explore != nil {
+			fmt.Fprintf(rn.explore, "POISON %s %v: %s\n", culprit.Name, culprit.Tags, co)
+		}
+		c.Hit("poisoned-build")
+		c.Violation(sig, fmt.Sprintf("the library of program %s [%s] makes Register() fail for the whole build: every compiled program ends with {%s}", culprit.Name, strings.Join(culprit.Tags, ","), co), caseOf(culprit))
+		var rest []*Prog
+		for _, p := range progs {
+			if p != culprit {
+				rest = append(rest, p)
+			}
+		}
+		progs = rest
 	}
 	rn.judge(progs, br, shrinkPass)
 	return br
@@ -211,6 +322,16 @@ func (rn *runner) shrink() {
 		br := RunBatch(c, rn.batchNo, progs, rn.timeout)
 		c.Note("shrink batch %d: %d single-part programs, go build %.1fs", rn.batchNo, len(progs), br.BuildS)
 		for _, q := range progs {
+			if rf, ok := br.Refused[q.Name]; ok && rf.Stage == "crash" {
+				explained[owner[q.Name]] = true
+				c.Violation("crash:"+q.Tags[0], "the compile command panics instead of reporting a compile error for "+q.Name+" ["+q.Tags[0]+"]: "+rf.Msg, caseOf(q))
+				continue
+			}
+			if msg, ok := br.Unbuilt[q.Name]; ok {
+				explained[owner[q.Name]] = true
+				c.Violation("build:"+q.Tags[0], "the Go code generated for "+q.Name+" ["+q.Tags[0]+"] does not compile: "+msg, caseOf(q))
+				continue
+			}
 			co, ok1 := br.Compiled[q.Name]
 			io, ok2 := br.Interp[q.Name]
 			if ok1 && ok2 && !co.Same(io) && co.Exit != -1 && io.Exit != -1 {
@@ -240,7 +361,7 @@ func Run(c *vh.Ctx) {
 			c.Res.ModelUsed = true
 		}
 	}
-	rn := &runner{c: c, timeout: 20 * time.Second}
+	rn := &runner{c: c, timeout: 10 * time.Second}
 	if f := os.Getenv("C16_EXPLORE"); f != "" {
 		rn.explore, _ = os.Create(f)
 		defer rn.explore.Close()
@@ -272,39 +393,62 @@ func Run(c *vh.Ctx) {
 	structStream(c, m)
 
 	// ---- differential batches
-	nBatches := c.N(1, 5)
-	for b := 0; b < nBatches; b++ {
-		var progs []*Prog
+	var entryPool, clsPool, knownFeat []*feature
+	for i := range features {
+		f := &features[i]
+		switch {
+		case knownTags[f.Tag] != "":
+			knownFeat = append(knownFeat, f)
+		case f.Group == "cls":
+			clsPool = append(clsPool, f)
+			// (classes are only mixed with other class features and entry features in the class batch)
+		default:
+			entryPool = append(entryPool, f)
+		}
+	}
+	nRounds := c.N(1, 5)
+	for b := 0; b < nRounds; b++ {
 		id := 0
 		name := func(prefix string) string { id++; return fmt.Sprintf("%s%db%d", prefix, id, b) }
-		var pool []*feature
-		for i := range features {
-			f := &features[i]
-			if _, known := knownTags[f.Tag]; !known {
-				pool = append(pool, f)
-			}
-		}
-		// every feature alone (known ones included: that is the known stream)
 		reps := c.N(1, 2)
-		for i := range features {
+		// batch E: entry-only programs
+		var progs []*Prog
+		for _, f := range entryPool {
 			for k := 0; k < reps; k++ {
-				kind := "feat"
-				if _, known := knownTags[features[i].Tag]; known {
-					kind = "known"
-				}
-				progs = append(progs, FeatProg(c.Rand, &features[i], name("f"), kind))
+				progs = append(progs, FeatProg(c.Rand, f, name("f"), "feat"))
 			}
 		}
-		for i := 0; i < c.N(45, 300); i++ {
+		for i := 0; i < c.N(60, 330); i++ {
 			progs = append(progs, SafeProg(c.Rand, name("s")))
 		}
-		for i := 0; i < c.N(50, 450); i++ {
-			progs = append(progs, MixProg(c.Rand, pool, name("m")))
+		for i := 0; i < c.N(60, 330); i++ {
+			progs = append(progs, MixProg(c.Rand, entryPool, name("m")))
 		}
 		if b == 0 {
 			progs = append(progs, corpusProgs(c, name)...)
 		}
 		rn.batch(progs, false)
+		// batch C: library + entry class programs
+		progs = nil
+		for _, f := range clsPool {
+			for k := 0; k < reps; k++ {
+				progs = append(progs, FeatProg(c.Rand, f, name("f"), "cls"))
+			}
+		}
+		both := append(append([]*feature{}, clsPool...), clsPool...)
+		both = append(both, entryPool...)
+		for i := 0; i < c.N(40, 200); i++ {
+			progs = append(progs, MixProg(c.Rand, both, name("k")))
+		}
+		rn.batch(progs, false)
+		// batch K: the known stream — every feature with a recorded divergence, alone
+		if b == 0 && len(knownFeat) > 0 {
+			progs = nil
+			for _, f := range knownFeat {
+				progs = append(progs, FeatProg(c.Rand, f, name("f"), "known"))
+			}
+			rn.batch(progs, false)
+		}
 	}
 	rn.shrink()
 	c.Res.Exhaustive = true
